@@ -203,3 +203,30 @@ def duplicate_handling_keyed_like_naming(ctx: Ctx) -> None:
     init = ctx.repo.func("xsdata.codegen.container:ClassContainer.__init__")
     src = unparse(init.node)
     ctx.ob("RenameDuplicateAttributes runs in SANITIZE, after every FLATTEN handler that can add attrs", "Steps.SANITIZE: [ResetAttributeSequences(), RenameDuplicateAttributes()]" in src, at=init, construct="rename attrs schedule", msg="schedule changed")
+
+
+@rule("C07.R6")
+def free_name_searches_compare_slugs(ctx: Ctx) -> None:
+    """Every 'is this name taken?' search compares alnum slugs (what survives the naming conventions), and options applied late are re-validated."""
+    na = ctx.repo.func("xsdata.codegen.handlers.disambiguate_choices:DisambiguateChoices.next_available_name")
+    a = asrc(na)
+    ok = A("_={text.alnum(_.name)for_in_.inner}") in a and A("_=text.alnum(_);if_notin_:;return_") in a
+    ctx.ob("DisambiguateChoices.next_available_name reserves and compares text.alnum slugs of the inner class names", ok, at=na, construct="inner name search",
+           msg="raw names are compared: `item` and `Item` are both free, both become class Item and the second shadows the first")
+    un = ctx.repo.func("xsdata.codegen.utils:ClassUtils.unique_name")
+    a = asrc(un)
+    ctx.ob("ClassUtils.unique_name compares text.alnum slugs against the reserved set", A("iftext.alnum(_)in_:") in a and A("whiletext.alnum(f'{_}_{_}')in_:") in a, at=un, construct="unique_name", msg="raw names compared")
+    ri = ctx.repo.func("xsdata.codegen.utils:ClassUtils.rename_attributes_by_index")
+    ctx.ob("rename_attributes_by_index reserves the slugs of all attrs", A("_=set(map(get_slug,_))") in asrc(ri), at=ri, construct="reserved slugs", msg="reserved set not slug based")
+    up = ctx.repo.func("xsdata.models.config:GeneratorOutput.update")
+    g = build_cfg(up.node)
+    upd = [n for n in g.stmts() if any(unparse(c.func) == "objects.update" for c in node_calls(n))]
+    val = [n for n in g.stmts() if any(unparse(c.func) == "self.format.validate" for c in node_calls(n))]
+    ok = len(upd) == 1 and len(val) == 1 and g.must_pass(upd[0].id, g.exit, [val[0].id])
+    ctx.ob("GeneratorOutput.update re-validates the output format after applying late options (order implies eq)", ok, at=up, construct="late options validated",
+           msg="options applied through update() (the CLI route) skip OutputFormat.validate: @dataclass(eq=False, order=True) is generated and the module fails to import")
+    of = ctx.repo.cls("xsdata.models.config:OutputFormat")
+    pi = of.methods.get("__post_init__")
+    ctx.ob("OutputFormat.__post_init__ validates", pi is not None and "self.validate()" in unparse(pi.node), at=pi or up, construct="format post_init", msg="constructor route not validated")
+    v = of.methods.get("validate")
+    ctx.ob("OutputFormat.validate enables eq when order is set", v is not None and A("ifself.orderand(notself.eq):;self.eq=True") in asrc(v), at=v or up, construct="order implies eq", msg="conflict rule changed")
